@@ -93,10 +93,17 @@ class Fixture:
         self._keep_files_clear_of_patterns(self.spec, b"")
         self.dir = os.path.join(self.base, rng.choice([b"tree", b"tr ee", b"tree-\xff"]))
         fs.materialise(self.spec, self.dir)
+        # links, half of the time through a chain of links (relative and absolute hops mixed)
         self.link_file = os.path.join(self.base, b"lnk-file")
-        os.symlink(fname if rng.random() < 0.5 else self.file, self.link_file)
         self.link_dir = os.path.join(self.base, b"lnk-dir")
-        os.symlink(os.path.basename(self.dir) if rng.random() < 0.5 else self.dir, self.link_dir)
+        for link, final_rel, final_abs, stem in ((self.link_file, fname, self.file, b"hopf"), (self.link_dir, os.path.basename(self.dir), self.dir, b"hopd")):
+            target = final_rel if rng.random() < 0.5 else final_abs
+            # (the first fixture of every run — seed % 7 == 0 — always has chains)
+            for hop in range(2 if seed % 7 == 0 else rng.choice([0, 0, 1, 2])):
+                mid = os.path.join(self.base, stem + b"%d" % hop)
+                os.symlink(target, mid)
+                target = os.path.basename(mid) if rng.random() < 0.5 else mid
+            os.symlink(target, link)
         self.stdin = bytes(rng.randrange(256) for _ in range(rng.choice([0, 7, 300])))
         self.url = self.default_url = rng.choice(URLS)
         self.repo = os.path.join(self.base, b"repo")
